@@ -392,3 +392,27 @@ Example C19_odd_class_units : forallb (fun k : Z => k16_eqb (kmul O16 (kpowZ O16
 Proof. exact @odd_class_units. Qed.
 Print Assumptions C19_odd_class_units.
 
+
+(* ---- the whole sequence of the KAK-based fallback: order of the one-qubit factors; vanishing interaction (tensor products) ---- *)
+From VF Require Import Vendor.QasmKakSeq Vendor.QasmKakSeqProofs Vendor.QasmKakSeqExamples.
+
+Theorem C19_kak_sequence_order : forall (K : Type) (O : Ops K), Laws O -> forall p0 p1 p2 p3 q0 q1 q2 q3 r0 r1 r2 r3 t0 t1 t2 t3 c00 c01 c02 c03 c10 c11 c12 c13 c20 c21 c22 c23 c30 c31 c32 c33 : K, let core := m4 c00 c01 c02 c03 c10 c11 c12 c13 c20 c21 c22 c23 c30 c31 c32 c33 in kak_sequence O core (m2 p0 p1 p2 p3) (m2 q0 q1 q2 q3) (m2 r0 r1 r2 r3) (m2 t0 t1 t2 t3) = kak_unitary O core (m2 p0 p1 p2 p3) (m2 q0 q1 q2 q3) (m2 r0 r1 r2 r3) (m2 t0 t1 t2 t3).
+Proof. exact @kak_sequence_order. Qed.
+Print Assumptions C19_kak_sequence_order.
+
+Theorem C19_kak_sequence_separable : forall (K : Type) (O : Ops K), Laws O -> forall p0 p1 p2 p3 q0 q1 q2 q3 r0 r1 r2 r3 t0 t1 t2 t3 : K, kak_sequence O (mid O 4) (m2 p0 p1 p2 p3) (m2 q0 q1 q2 q3) (m2 r0 r1 r2 r3) (m2 t0 t1 t2 t3) = local_product O (m2 p0 p1 p2 p3) (m2 q0 q1 q2 q3) (m2 r0 r1 r2 r3) (m2 t0 t1 t2 t3).
+Proof. exact @kak_sequence_separable. Qed.
+Print Assumptions C19_kak_sequence_separable.
+
+Theorem C19_qasm_two_qubit_separable : forall (K : Type) (O : Ops K), Laws O -> forall p0 p1 p2 p3 q0 q1 q2 q3 r0 r1 r2 r3 t0 t1 t2 t3 : K, kak_sequence O (kak_core O (k1 O) (k1 O) (k1 O) (k1 O) (k1 O) (k1 O)) (m2 p0 p1 p2 p3) (m2 q0 q1 q2 q3) (m2 r0 r1 r2 r3) (m2 t0 t1 t2 t3) = local_product O (m2 p0 p1 p2 p3) (m2 q0 q1 q2 q3) (m2 r0 r1 r2 r3) (m2 t0 t1 t2 t3).
+Proof. exact @qasm_two_qubit_separable. Qed.
+Print Assumptions C19_qasm_two_qubit_separable.
+
+Theorem C19_qasm_two_qubit_separable_v3 : forall (K : Type) (O : Ops K), Laws O -> forall p0 p1 p2 p3 q0 q1 q2 q3 r0 r1 r2 r3 t0 t1 t2 t3 : K, kak_sequence O (kak_core_v3 O (k1 O) (k1 O) (k1 O) (k1 O) (k1 O) (k1 O)) (m2 p0 p1 p2 p3) (m2 q0 q1 q2 q3) (m2 r0 r1 r2 r3) (m2 t0 t1 t2 t3) = local_product O (m2 p0 p1 p2 p3) (m2 q0 q1 q2 q3) (m2 r0 r1 r2 r3) (m2 t0 t1 t2 t3).
+Proof. exact @qasm_two_qubit_separable_v3. Qed.
+Print Assumptions C19_qasm_two_qubit_separable_v3.
+
+(* the other order of the factors is a different unitary (not a multiple): before = S, after = X in Q(zeta_16) *)
+Example C19_separable_order_matters : k16_eqb (mget O16 (local_product O16 ex_S ex_I ex_X ex_I) 0 2) (ki O16) = true /\ k16_eqb (mget O16 (local_product O16 ex_S ex_I ex_X ex_I) 2 0) (k1 O16) = true /\ k16_eqb (mget O16 (local_product O16 ex_X ex_I ex_S ex_I) 0 2) (k1 O16) = true /\ k16_eqb (mget O16 (local_product O16 ex_X ex_I ex_S ex_I) 2 0) (ki O16) = true /\ k16_eqb (mget O16 (kak_sequence O16 (mid O16 4) ex_S ex_I ex_X ex_I) 0 2) (ki O16) = true.
+Proof. exact @separable_order_matters. Qed.
+Print Assumptions C19_separable_order_matters.
